@@ -240,6 +240,17 @@ static MessageRef BuildHostile(const J & c, const std::string & wroot)
    return m;
 }
 
+// an ordinary command of the prelude / epilogue the specification gives (HostileSpace.tla)
+static MessageRef BuildPre(const J & c)
+{
+   const std::string op = c["pre"].str(), p = c["p"].str(), x = c["x"].str();
+   if (op == "SETDATA") {MessageRef m = Msg(PR_COMMAND_SETDATA); (void) m()->AddMessage(p.c_str(), Msg(1)); if (x == "index") {SetDataNodeFlags f; f.SetBit(SETDATANODE_FLAG_ADDTOINDEX); (void) m()->AddFlat(PR_NAME_FLAGS, f);} return m;}
+   if (op == "INSERTORDEREDDATA") {MessageRef m = Msg(PR_COMMAND_INSERTORDEREDDATA); (void) m()->AddString(PR_NAME_KEYS, p.c_str()); (void) m()->AddMessage(x.c_str(), Msg(2)); return m;}
+   if (op == "REORDERDATA") {MessageRef m = Msg(PR_COMMAND_REORDERDATA); (void) m()->AddString(p.c_str(), x.c_str()); return m;}
+   MessageRef m = Msg(PR_COMMAND_REMOVEDATA); (void) m()->AddString(PR_NAME_KEYS, p.c_str()); return m;
+}
+static J g_prelude, g_epilogue;
+
 // injects the Messages of `order` (indices into cases), `perWorld` per server instance; senders: V (valve closed, backlog) and / or B (reading)
 static long g_hInjected = 0, g_hWorlds = 0, g_hPings = 0, g_hDropped = 0, g_hBacklogMax = 0;
 static void HostilePass(const std::vector<std::string> & cases, const std::vector<size_t> & order, size_t perWorld, int clients, std::mt19937 & rng, const char * passName)
@@ -247,6 +258,9 @@ static void HostilePass(const std::vector<std::string> & cases, const std::vecto
    size_t pos = 0;
    while ((pos < order.size())&&(g_violCases < 25)) {
       OqWorld ow; World & w = ow.w; g_hWorlds++;
+      SetStage("running the prelude (ordinary commands that build nodes with mixed indexed / plain children)");
+      for (size_t i=0; i<g_prelude.size(); i++) {w.Send(ow.V, BuildPre(g_prelude[i])); w.Send(ow.B, BuildPre(g_prelude[i])); w.Settle(2);}
+      ow.V->inbox.clear(); ow.B->inbox.clear();
       const bool blocked = ow.CloseValve(ow.V);
       // a backlog for the jettison / supersede paths to walk: the victim is subscribed to the witness's small nodes, which the witness keeps changing
       if (blocked) {MessageRef s = Msg(PR_COMMAND_SETPARAMETERS); s()->AddBool((std::string("SUBSCRIBE:") + ow.W->root + "/*").c_str(), true); w.Send(ow.V, s); w.Settle(2);}
@@ -270,6 +284,15 @@ static void HostilePass(const std::vector<std::string> & cases, const std::vecto
          ow.B->inbox.clear(); ow.W->inbox.clear(); ow.W->mirror.clear(); ow.B->mirror.clear();
          if (w.Attached(ow.V)) {const long bl = (long) ow.V->sess->OutQ()->GetNumItems(); if (bl > g_hBacklogMax) g_hBacklogMax = bl;}
       }
+      // the end of every server life: the second sender removes its (mixed) nodes, the first one - still not reading - simply departs; the witness must still be served
+      if (ow.viol.empty()) {
+         {J cur = J::Obj(); cur.set("pass", J::Str(passName)).set("valve_closed", J::Bool(blocked)).set("history", hist).set("then", J::Str("epilogue: removal of the prelude's nodes by B, departure of V")); SetCur(mj::ToString(cur));}
+         SetStage("removing the nodes of the prelude (epilogue)");
+         if ((ow.B->connected)&&(w.Attached(ow.B))) for (size_t i=0; i<g_epilogue.size(); i++) {w.Send(ow.B, BuildPre(g_epilogue[i])); w.Settle(2);}
+         g_hPings++; ow.WitnessPing("answering the witness's ping after the second sender removed its nodes");
+         SetStage("handling the departure of the non-reading sender (its subtree is removed recursively)");
+         w.Close(ow.V); w.Settle(3);
+         g_hPings++; ow.WitnessPing("answering the witness's ping after the departure of the non-reading sender"); }
       if (!ow.viol.empty()) {g_violCases++; J row = J::Obj(); row.set("violations", StrList(ow.viol)).set("pass", J::Str(passName)).set("valve_closed", J::Bool(blocked)).set("history", hist); RepJ(row);}
       if (w.slowest > g_oqSlowest) g_oqSlowest = w.slowest; g_oqPumps += (long) w.pumps;
    }
@@ -280,6 +303,7 @@ static int HostileRun(int argc, char ** argv)
    // srv hostile <cases.ndjson> <report> <seed> <perWorld> <nseq> <seqlen> [shard nshards]
    if (argc < 8) return 2;
    std::vector<std::string> cases; if (!ReadLines(argv[2], cases)) {fprintf(stderr, "cannot read %s\n", argv[2]); return 3;}
+   if ((!cases.empty())&&(cases[0].find("\"prelude\"") != std::string::npos)) {const J p = ParseLine(cases[0]); g_prelude = p["prelude"]; g_epilogue = p["epilogue"]; cases.erase(cases.begin());}
    if (!OpenReport(argv[3])) return 3;
    const unsigned seed = (unsigned) atoi(argv[4]); const size_t perWorld = (size_t) atoi(argv[5]); const int nseq = atoi(argv[6]); const size_t seqlen = (size_t) atoi(argv[7]);
    const size_t shard = (argc > 9) ? (size_t) atoi(argv[8]) : 0, nshards = (argc > 9) ? (size_t) atoi(argv[9]) : 1;
